@@ -295,6 +295,59 @@ def neg_ids(nodes):
     return ids
 
 
+
+# ---- closures without a contract (the installed Verus does not infer closure postconditions) ----
+_CLOSURE_RE = re.compile(r'(?:(?<=[(,={;])|(?<=\breturn)|(?<=\bmove)|(?<=&))\s*(?:move\s+)?\|([^|\n]*)\|(?!\|)')
+
+
+def _strip_comments_strings(t):
+    t = re.sub(r'//[^\n]*', lambda m: ' ' * len(m.group(0)), t)
+    t = re.sub(r'"(?:[^"\\\n]|\\.)*"', lambda m: '"' + ' ' * (len(m.group(0)) - 2) + '"', t)
+    return t
+
+
+def _callee_of(t, pos):
+    """name of the call whose argument list contains position `pos` (walk back to the unmatched '('), or None"""
+    depth = 0
+    i = pos - 1
+    while i >= 0:
+        c = t[i]
+        if c in ')]}':
+            depth += 1
+        elif c in '([{':
+            if depth == 0:
+                if c != '(':
+                    return None
+                m = re.search(r'(\w+)\s*(?:::<[^()]*>)?\s*$', t[:i])
+                return m.group(1) if m else None
+            depth -= 1
+        i -= 1
+    return None
+
+
+def opaque_closures(fn_text, unit_text):
+    """Closures of an extracted function that carry no contract AND are handed to something whose contract may speak about what they return:
+    every callee that is not a shim defined in the unit, and every shim of the unit whose contract mentions the closure's requires()/ensures().
+    A failed obligation in a function that has MORE of these than on the unchanged tree is a tool limit (undecided), not a refutation."""
+    t = _strip_comments_strings(fn_text)
+    n = 0
+    for m in _CLOSURE_RE.finditer(t):
+        after = t[m.end():m.end() + 40]
+        if re.match(r'\s*->\s*\(\s*\w+\s*:', after):
+            continue      # `|x| -> (r: T) requires .. ensures .. { .. }`: under contract
+        callee = _callee_of(t, m.start())
+        if callee:
+            dm = re.search(r'\bfn\s+%s\s*[<(]' % re.escape(callee), unit_text)
+            if dm:
+                body = unit_text[dm.start():dm.start() + 1500]
+                end = body.find('unimplemented!()')
+                contract = body[:end] if end >= 0 else body[:600]
+                if '.ensures(' not in contract and '.requires(' not in contract:
+                    continue      # a shim of the unit that says nothing about what the closure returns
+        n += 1
+    return n
+
+
 def extract(node, variant, report):
     src = get_source(node['file'])
     hits = src.locate(node['path'])
@@ -585,7 +638,7 @@ def extract(node, variant, report):
         item=' >> '.join(node['path']), file=node['file'], line=src.line_of(it.head), end_line=src.line_of(it.end),
         obligs=node['obligs'], rules=rules, external=node['external'],
         inserted_lines=sum(len(x) for x in [node['spec']] + [l['lines'] for l in node['loops'].values()] + [i['lines'] for i in node['inserts']]),
-        kind=it.kind, name=(node['rename'] or it.name)))
+        kind=it.kind, name=(node['rename'] or it.name), fn_text=res))
     return res
 
 
@@ -602,7 +655,14 @@ def build(template_path, variant=None):
             first = len(out_lines) + 1
             out_lines.extend(txt.split('\n'))
             report['extracts'][-1]['out_lines'] = [first, len(out_lines)]
-    return '\n'.join(out_lines), report
+    full = '\n'.join(out_lines)
+    # shims = the unit text minus the extracted functions (a callee named like an extracted function is NOT a shim)
+    for ex in report['extracts']:
+        ft = ex.pop('fn_text')
+        if ex.get('kind') == 'fn':
+            shim_text = full.replace(ft, '')
+            ex['opaque_closures'] = opaque_closures(ft, shim_text)
+    return full, report
 
 
 def main():
